@@ -33,6 +33,9 @@ type fdSpec struct {
 	// Return labels a return instruction (given the resolved result values).
 	Return func(ret *ssa.Return, res []ssa.Value, eval func(ssa.Value) fdVal) string
 	MaxVisits int
+	// Inline says whether a statically resolved callee is walked as part of the caller (nil = never).
+	// Calls that Symbol names or Effect labels are never inlined.
+	Inline func(callee *ssa.Function) bool
 }
 
 type fdPath struct {
@@ -40,12 +43,31 @@ type fdPath struct {
 	cells  map[ssa.Value]ssa.Value // alloc -> last stored value
 	trace  []string
 	visits map[*ssa.BasicBlock]int
+	alias  map[ssa.Value]ssa.Value   // parameter of an inlined callee -> argument; inlined call -> its single result
+	tups   map[ssa.Value][]ssa.Value // inlined call -> result values of the return taken on this path
+	src    map[ssa.Value]ssa.Value   // phi -> the incoming value on this path (identity only; used by resolve)
+}
+
+// fdFrame is a suspended caller: continue at block.Instrs[next:] once the inlined callee returns.
+type fdFrame struct {
+	call  *ssa.Call
+	block *ssa.BasicBlock
+	next  int
 }
 
 func (p *fdPath) clone() *fdPath {
-	q := &fdPath{env: map[ssa.Value]fdVal{}, cells: map[ssa.Value]ssa.Value{}, visits: map[*ssa.BasicBlock]int{}}
+	q := &fdPath{env: map[ssa.Value]fdVal{}, cells: map[ssa.Value]ssa.Value{}, visits: map[*ssa.BasicBlock]int{}, alias: map[ssa.Value]ssa.Value{}, tups: map[ssa.Value][]ssa.Value{}, src: map[ssa.Value]ssa.Value{}}
+	for k, v := range p.src {
+		q.src[k] = v
+	}
 	for k, v := range p.env {
 		q.env[k] = v
+	}
+	for k, v := range p.alias {
+		q.alias[k] = v
+	}
+	for k, v := range p.tups {
+		q.tups[k] = v
 	}
 	for k, v := range p.cells {
 		q.cells[k] = v
@@ -71,6 +93,14 @@ func fdRun(fn *ssa.Function, spec *fdSpec, assign map[string]int64) []string {
 		}
 		if r, ok := p.env[v]; ok {
 			return r
+		}
+		if a, ok := p.alias[v]; ok {
+			return eval(p, a)
+		}
+		if ex, ok := v.(*ssa.Extract); ok {
+			if t, ok := p.tups[ex.Tuple]; ok && ex.Index < len(t) {
+				return eval(p, t[ex.Index])
+			}
 		}
 		if c, ok := v.(*ssa.Const); ok && c.IsNil() {
 			return fdVal{known: true, n: 0} // nil pointer / interface
@@ -152,14 +182,44 @@ func fdRun(fn *ssa.Function, spec *fdSpec, assign map[string]int64) []string {
 		}
 		return fdVal{}
 	}
-	var walk func(p *fdPath, b, prev *ssa.BasicBlock)
-	walk = func(p *fdPath, b, prev *ssa.BasicBlock) {
-		p.visits[b]++
-		if p.visits[b] > maxV || len(out) > 4096 {
-			return
+	// resolve follows inlined-call results to the callee value actually returned on this path
+	var resolve func(p *fdPath, v ssa.Value) ssa.Value
+	resolve = func(p *fdPath, v ssa.Value) ssa.Value {
+		for i := 0; i < 8; i++ {
+			if a, ok := p.alias[v]; ok {
+				v = a
+				continue
+			}
+			if a, ok := p.src[v]; ok && len(p.tups)+len(p.alias) > 0 {
+				v = a
+				continue
+			}
+			if ex, ok := v.(*ssa.Extract); ok {
+				if t, ok := p.tups[ex.Tuple]; ok && ex.Index < len(t) {
+					v = t[ex.Index]
+					continue
+				}
+			}
+			if u, ok := v.(*ssa.UnOp); ok && u.Op == token.MUL {
+				if st, ok := p.cells[u.X]; ok {
+					v = st
+					continue
+				}
+			}
+			break
+		}
+		return v
+	}
+	var walk func(p *fdPath, b, prev *ssa.BasicBlock, from int, stack []fdFrame)
+	walk = func(p *fdPath, b, prev *ssa.BasicBlock, from int, stack []fdFrame) {
+		if from == 0 {
+			p.visits[b]++
+			if p.visits[b] > maxV || len(out) > 4096 {
+				return
+			}
 		}
 		// phis
-		if prev != nil {
+		if prev != nil && from == 0 {
 			pi := -1
 			for i, pr := range b.Preds {
 				if pr == prev {
@@ -174,6 +234,8 @@ func fdRun(fn *ssa.Function, spec *fdSpec, assign map[string]int64) []string {
 				}
 				if pi >= 0 {
 					vals[phi] = eval(p, phi.Edges[pi])
+					// keep the identity of the incoming value (an inlined result, a sentinel) for resolve
+					p.src[phi] = phi.Edges[pi]
 				}
 			}
 			for k, v := range vals {
@@ -184,7 +246,8 @@ func fdRun(fn *ssa.Function, spec *fdSpec, assign map[string]int64) []string {
 				}
 			}
 		}
-		for _, ins := range b.Instrs {
+		for i := from; i < len(b.Instrs); i++ {
+			ins := b.Instrs[i]
 			switch x := ins.(type) {
 			case *ssa.Phi:
 				continue
@@ -196,28 +259,34 @@ func fdRun(fn *ssa.Function, spec *fdSpec, assign map[string]int64) []string {
 				c := eval(p, x.Cond)
 				if c.known && c.isB {
 					if c.b {
-						walk(p, b.Succs[0], b)
+						walk(p, b.Succs[0], b, 0, stack)
 					} else {
-						walk(p, b.Succs[1], b)
+						walk(p, b.Succs[1], b, 0, stack)
 					}
 					return
 				}
 				q := p.clone()
-				walk(p, b.Succs[0], b)
-				walk(q, b.Succs[1], b)
+				walk(p, b.Succs[0], b, 0, stack)
+				walk(q, b.Succs[1], b, 0, stack)
 				return
 			case *ssa.Jump:
-				walk(p, b.Succs[0], b)
+				walk(p, b.Succs[0], b, 0, stack)
 				return
 			case *ssa.Return:
 				res := make([]ssa.Value, len(x.Results))
 				for i, rv := range x.Results {
-					res[i] = rv
-					if u, ok := rv.(*ssa.UnOp); ok && u.Op == token.MUL {
-						if st, ok := p.cells[u.X]; ok {
-							res[i] = st
-						}
+					res[i] = resolve(p, rv)
+				}
+				if len(stack) > 0 {
+					// return into the suspended caller
+					fr := stack[len(stack)-1]
+					if len(res) == 1 {
+						p.alias[fr.call] = res[0]
+					} else {
+						p.tups[fr.call] = res
 					}
+					walk(p, fr.block, nil, fr.next, stack[:len(stack)-1])
+					return
 				}
 				lab := "return"
 				if spec.Return != nil {
@@ -229,8 +298,10 @@ func fdRun(fn *ssa.Function, spec *fdSpec, assign map[string]int64) []string {
 				out[strings.Join(append(p.trace, "panic"), " > ")] = true
 				return
 			}
+			labelled := false
 			if spec.Effect != nil {
 				if lab, stop := spec.Effect(ins, func(v ssa.Value) fdVal { return eval(p, v) }); lab != "" || stop {
+					labelled = true
 					if lab != "" {
 						p.trace = append(p.trace, lab)
 					}
@@ -240,9 +311,35 @@ func fdRun(fn *ssa.Function, spec *fdSpec, assign map[string]int64) []string {
 					}
 				}
 			}
+			if c, ok := ins.(*ssa.Call); ok && !labelled && spec.Inline != nil && len(stack) < 3 {
+				callee := c.Call.StaticCallee()
+				if callee != nil && callee.Blocks != nil && spec.Symbol(c) == "" && spec.Inline(callee) {
+					rec := false
+					for _, fr := range stack {
+						if fr.call.Call.StaticCallee() == callee {
+							rec = true
+						}
+					}
+					if !rec && callee != fn {
+						for j, prm := range callee.Params {
+							if j < len(c.Call.Args) {
+								p.alias[prm] = c.Call.Args[j]
+								delete(p.env, prm)
+							}
+						}
+						// the callee's blocks may be entered once per call site on a path
+						for _, cb := range callee.Blocks {
+							delete(p.visits, cb)
+						}
+						ns := append(append([]fdFrame(nil), stack...), fdFrame{call: c, block: b, next: i + 1})
+						walk(p, callee.Blocks[0], nil, 0, ns)
+						return
+					}
+				}
+			}
 		}
 	}
-	walk(&fdPath{env: map[ssa.Value]fdVal{}, cells: map[ssa.Value]ssa.Value{}, visits: map[*ssa.BasicBlock]int{}}, fn.Blocks[0], nil)
+	walk(&fdPath{env: map[ssa.Value]fdVal{}, cells: map[ssa.Value]ssa.Value{}, visits: map[*ssa.BasicBlock]int{}, alias: map[ssa.Value]ssa.Value{}, tups: map[ssa.Value][]ssa.Value{}, src: map[ssa.Value]ssa.Value{}}, fn.Blocks[0], nil, 0, nil)
 	var res []string
 	for k := range out {
 		res = append(res, k)
